@@ -113,11 +113,41 @@ def r1(prog, run):
         if not approved:
             run.violation(rid, 'jid-write#%s#unapproved' % top.qname, f.loc(i),
                           'identity assigned without an approving authentication edge: d->jid = %s' % rhs[:100])
-        elif 'QXmppSaslServer::username' not in rhs or 'this.d.domain' not in rhs:
+        elif 'this.d.domain' not in rhs:
+            run.violation(rid, 'jid-write#%s#wrong-source' % top.qname, f.loc(i), 'identity not built from the configured domain: %s' % rhs[:100])
+        elif approved.startswith('error()'):
+            # asynchronous edge: the answer of the password checker arrives later than the request; the identity must be the user name stored with the request,
+            # not whatever the (replaceable) SASL server object holds by then
+            bound = _request_bound_names(prog)
+            used = [b for b in bound if 'QObject::property("%s")' % b in rhs]
+            if 'QXmppSaslServer::username' in rhs or not used:
+                run.violation(rid, 'jid-write#%s#identity-not-bound-to-request' % top.qname, f.loc(i),
+                              'the password checker answers asynchronously, and the identity is built from %s at the time of the answer: a second <auth/> pipelined behind a valid one '
+                              'replaces the SASL server in between, so the approval of one user name assigns another (the identity must come from a value stored with the request)'
+                              % ('saslServer->username()' if 'QXmppSaslServer::username' in rhs else rhs[:60]))
+            else:
+                run.ok(rid, f.loc(i), 'under %s: jid = <user name stored with the request as "%s">@domain' % (approved, used[0]))
+        elif 'QXmppSaslServer::username' not in rhs:
             run.violation(rid, 'jid-write#%s#wrong-source' % top.qname, f.loc(i),
                           'identity not built from saslServer->username() and the configured domain: %s' % rhs[:100])
         else:
             run.ok(rid, f.loc(i), 'under %s: jid = username@domain' % approved)
+
+
+def _request_bound_names(prog):
+    """names of the dynamic properties under which checkCredentials stores the requested user name with the reply object"""
+    out = []
+    cc = prog.fn('QXmppIncomingClientPrivate::checkCredentials', required=False)
+    if cc is None:
+        return out
+    for i, n in cc.calls('QObject::setProperty'):
+        if len(n.get('args', [])) >= 2:
+            v = cc.fmt(n['args'][1])
+            if 'QXmppPasswordRequest::username()' in v or 'QXmppSaslServer::username()' in v:
+                nm = cc.strval(n['args'][0])
+                if nm:
+                    out.append(nm)
+    return out
 
 
 def _unauth_eval(fn):
@@ -332,6 +362,10 @@ def r5(prog, run):
             n = f.nodes[f.skip(c)]
             if n['k'] == 'un' and n['op'] == '!' and f.nodes[f.skip(n['e'])].get('name') == 'reply':
                 return False
+            # the answer belongs to the exchange in progress (the stale-answer path is decided separately below)
+            if 'QXmppIncomingClientPrivate::saslServer' in ' '.join(str(f.nodes[j].get('f') or '') for j in f.walk(c)) and not any(f.nodes[j]['k'] == 'call' and f.cname(f.nodes[j]).startswith('QXmppSaslServer::') for j in f.walk(c)):
+                top = f.nodes[f.skip(c)]
+                return not (top['k'] == 'un' and top.get('op') == '!')
             return ev.ev(c, st)
         exits, _ = cfgx.explore(pr, (), transfer, evc)
         run.paths += len(exits)
@@ -351,6 +385,32 @@ def r5(prog, run):
                                   cfgx.describe_path(pr, path))
                 else:
                     run.ok(rid, pr.loc(), '%s: failure sent, disconnected, no identity' % e['name'])
+    # an answer that arrives when no exchange is in progress any more (another pipelined request was answered first and the stream restarted) is ignored:
+    # nothing is assigned, announced or sent, and the (reset) SASL server object is not touched
+    for h in (pr, dr):
+        run.instance(rid)
+
+        def stale(f, c, st):
+            fields = [f.nodes[j].get('f') or '' for j in f.walk(c)]
+            if any(x.endswith('::saslServer') for x in fields) and not any(f.nodes[j]['k'] == 'call' and f.cname(f.nodes[j]).startswith('QXmppSaslServer::') for j in f.walk(c)):
+                top = f.nodes[f.skip(c)]
+                return top['k'] == 'un' and top.get('op') == '!'
+            n = f.nodes[f.skip(c)]
+            if n['k'] == 'un' and n['op'] == '!' and f.nodes[f.skip(n['e'])].get('name') == 'reply':
+                return False
+            return None
+        sinks = [i for i, n in h.calls() if h.cname(n).startswith('QXmppSaslServer::') or h.cname(n).endswith(('::sendData', '::handleStart', '::onSasl2Authenticated'))]
+        sinks += [i for i, n in h.all_nodes('assign') if h.nodes[h.skip(n['l'])].get('f') == JID]
+        res = cfgx.sink_reachability(h, stale, sinks)
+        hit = [i for i in sinks if res[i] is not None]
+        if hit:
+            n0 = h.nodes[hit[0]]
+            run.violation(rid, '%s#stale-answer' % h.qname.split('::')[-1], h.loc(hit[0]),
+                          '%s reaches %s although no SASL exchange is in progress any more (the answer of a pipelined request arriving after the stream has been restarted): '
+                          'the reset SASL server is dereferenced / the connection state is changed by an answer that no longer belongs to anything'
+                          % (h.qname.split('::')[-1], h.fmt(hit[0], inline=False)[:60]), cfgx.describe_path(h, res[hit[0]]))
+        else:
+            run.ok(rid, h.loc(), '%s ignores an answer that arrives after its exchange has ended' % h.qname.split('::')[-1])
     # digest: challenge only when respond() == Challenge; never success/identity here
     run.instance(rid)
     bad = [i for i, n in dr.all_nodes('assign') if dr.nodes[dr.skip(n['l'])].get('f') == JID]
